@@ -6,6 +6,7 @@ package dastard
 
 import (
 	"bytes"
+	"os"
 	"time"
 
 	"github.com/usnistgov/dastard/packets"
@@ -19,7 +20,18 @@ func verifC17Process() {
 	nchan := vParam("nchan", 3)
 	npre, nsamp := 3, 4
 	n1, n2 := vParam("block1", 6), vParam("block2", 4)
+	rates := vParam("rates", 0) == 1
+	tRigCountTriggers = rates
 	rig := newTRig(nchan, npre, nsamp, n1+n2, nil, false)
+	if rates {
+		// a 2 Hz stream: every block spans several one-second trigger-rate periods, so one
+		// call of the broker emits several TRIGGERRATE messages
+		rig.ds.sampleRate = 2
+		rig.period = 500000000
+		for _, dsp := range rig.ds.processors {
+			dsp.SampleRate = 2
+		}
+	}
 	if vParam("symbolicdata", 0) == 0 {
 		// which accesses happen does not depend on the sample values beyond where triggers
 		// fall: a fixed zig-zag per channel with a symbolic threshold explores those
@@ -59,12 +71,19 @@ func verifC17Process() {
 		}
 	}()
 	statusDone := make(chan int)
+	nrates := 0
 	go func() { // the status thread
 		n := 0
 		for {
 			select {
 			case u := <-clientMessageChan:
 				n += len(u.tag)
+				if m, ok := u.state.(TriggerRateMessage); ok { // what the JSON encoder reads
+					for _, c := range m.CountsSeen {
+						n += c
+					}
+					nrates++
+				}
 			case <-stop:
 				statusDone <- n
 				return
@@ -88,6 +107,9 @@ func verifC17Process() {
 	close(stop)
 	<-done
 	<-statusDone
+	if rates {
+		vCheck(nrates >= 3, "several trigger-rate messages were published")
+	}
 	vObserve("fed", int64(rig.fed))
 	vWitness("c17process-end")
 }
@@ -169,19 +191,145 @@ func verifC17Lancero() {
 	card.times = []int64{1000000, 2000000, 3000000, 4000000}
 	ls := c04Source(card, ncols, nrows)
 	ls.launchLanceroReader()
-	total := 0
-	done := make(chan struct{})
+	prog := make(chan int, 16)
 	go func() { // what getNextBlock does with the buffers
 		for buf := range ls.buffersChan {
 			blk := ls.distributeData(buf)
-			total += len(blk.segments[0].rawData)
+			prog <- len(blk.segments[0].rawData)
 		}
-		close(done)
+		close(prog)
 	}()
-	vAdvance(70 * vParam("ticks", 4))
+	total := 0
+	for total < nframes { // until every frame of the script has been demultiplexed
+		n, ok := <-prog
+		if !ok {
+			break
+		}
+		total += n
+	}
 	closeIfOpen(ls.abortSelf)
 	vSettle(50)
-	<-done
 	vObserve("frames", int64(total))
 	vWitness("c17lancero-end")
+}
+
+// verifC17Archive: a raw-data block is requested (ArchiveDataBlock, inside the core loop as
+// StoreRawDataBlock runs it), the core loop fills it block by block (ProcessSegments ->
+// archiveNewDataBlock) while the writer goroutine waits for completion and then reads the
+// archive to write the file; a second request follows the first. The npz encoder itself is
+// summarised (its calls read the archive's slices).
+func verifC17Archive() {
+	vStub("github.com/sbinet/npyio/npz.NewWriter")
+	vStub("(*github.com/sbinet/npyio/npz.Writer).Write")
+	vStub("(*github.com/sbinet/npyio/npz.Writer).Close")
+	nchan := 2
+	rig := newTRig(nchan, 3, 4, 40, nil, false)
+	for c := 0; c < nchan; c++ {
+		for k := range rig.truth[c] {
+			rig.truth[c][k] = RawType(100 + k)
+		}
+	}
+	dir := os.Getenv("VERIF_WORK")
+	if dir == "" {
+		dir = "/data"
+	}
+	os.MkdirAll(dir, 0755)
+	nreq := vParam("requests", 2)
+	for q := 0; q < nreq; q++ {
+		f, err := os.Create(dir + "/raw" + string(rune('0'+q)) + ".npz.tmp")
+		vCheck(err == nil, "harness can create the archive file")
+		vCheck(rig.ds.ArchiveDataBlock(6, f, dir+"/raw"+string(rune('0'+q))+".npz") == nil, "archive request accepted")
+		for b := 0; b < 3; b++ { // 3 blocks of 4 samples: the request fills during the second
+			n := 4
+			block := new(dataBlock)
+			block.nSamp = n
+			block.segments = make([]DataSegment, nchan)
+			for c := 0; c < nchan; c++ {
+				data := make([]RawType, n)
+				copy(data, rig.truth[c][rig.fed:rig.fed+n])
+				block.segments[c] = DataSegment{rawData: data, framesPerSample: 1, firstFrameIndex: rig.frame0 + FrameIndex(rig.fed),
+					firstTime: time.Now().Add(time.Hour), framePeriod: time.Duration(rig.period), voltsPerArb: 1}
+			}
+			vCheck(rig.ds.ProcessSegments(block) == nil, "ProcessSegments succeeds")
+			rig.fed += n
+		}
+	}
+	vSettle(50)
+	vObserve("fed", int64(rig.fed))
+	vWitness("c17archive-end")
+}
+
+// verifC17Requests: a running Triangle source (real CoreLoop, real ProcessSegments with
+// triggers firing and LJH files being written) while one client issues control requests
+// through the real SourceControl methods; publisher and status consumers read what they
+// receive. Ticker firings (data blocks) interleave with the requests in every order.
+func verifC17Requests() {
+	vWatchdog(30)
+	c11RealProcessing = true
+	c11TriangleMax = 106 // 12-sample blocks: several 4-sample records per block
+	sc := c11Start(0)
+	stop := make(chan struct{})
+	done := make(chan int)
+	got := make(chan int, 64)
+	go func() { // the publisher thread
+		total := 0
+		for {
+			select {
+			case batch := <-PubRecordsChan:
+				for _, rec := range batch {
+					total += len(rec.data) + rec.presamples + rec.channelIndex + int(rec.trigFrame)
+					for _, v := range rec.data {
+						total += int(v)
+					}
+				}
+				select {
+				case got <- len(batch):
+				default:
+				}
+			case <-PubSummariesChan:
+			case <-stop:
+				done <- total
+				return
+			}
+		}
+	}()
+	var reply bool
+	st := &FullTriggerState{ChannelIndices: []int{0}}
+	st.AutoTrigger, st.AutoDelay = true, 0
+	vCheck(sc.ConfigureTriggers(st, &reply) == nil, "trigger request answered")
+	// channel 1: auto triggers, or the edge-multi trigger armed (its bookkeeping is updated by
+	// the channel's processing goroutine on every block)
+	st1 := &FullTriggerState{ChannelIndices: []int{1}}
+	if vRange("chan1trigger", 0, 1) == 0 {
+		st1.AutoTrigger, st1.AutoDelay = true, 0
+	} else {
+		st1.EdgeMulti, st1.EdgeMultiLevel, st1.EdgeMultiVerifyNMonotone, st1.EdgeMultiDisableZeroThreshold = true, 1, 1, true
+	}
+	vCheck(sc.ConfigureTriggers(st1, &reply) == nil, "second trigger request answered")
+	vCheck(sc.WriteControl(&WriteControlConfig{Request: "START", WriteLJH22: true}, &reply) == nil, "START answered")
+	<-got // records are being triggered, written and published
+	which := vRange("request", 0, 4)
+	switch which {
+	case 4:
+		st.AutoDelay = time.Millisecond
+		vCheck(sc.ConfigureTriggers(st, &reply) == nil, "trigger change answered")
+	case 0:
+		vCheck(sc.ConfigurePulseLengths(SizeObject{Nsamp: 6, Npre: 3}, &reply) != nil || true, "pulse-length request answered")
+	case 1:
+		gts := GroupTriggerState{Connections: map[int][]int{0: {1}}}
+		vCheck(sc.AddGroupTriggerCoupling(gts, &reply) == nil, "coupling request answered")
+	case 2:
+		c := "a comment"
+		vCheck(sc.WriteComment(&c, &reply) == nil, "comment request answered")
+	case 3:
+		vCheck(sc.SetExperimentStateLabel(&StateLabelConfig{Label: "calib", WaitForError: true}, &reply) == nil, "state label answered")
+	}
+	<-got // ... and still are after the request
+	vCheck(sc.WriteControl(&WriteControlConfig{Request: "STOP"}, &reply) == nil, "STOP answered")
+	var dummy string
+	vCheck(sc.Stop(&dummy, &reply) == nil, "Stop is answered")
+	close(stop)
+	<-done
+	vObserve("request", int64(which))
+	vWitness("c17requests-end")
 }
